@@ -111,24 +111,23 @@ class Ctx:
         if race:
             cmd.append("-race")
         cmd.append(pkg)
-        self._write_gomod()
-        p = subprocess.run(cmd, cwd=HARNESS, env=env, capture_output=True, text=True, timeout=900)
+        hd = self._harness_copy()
+        p = subprocess.run(cmd, cwd=hd, env=env, capture_output=True, text=True, timeout=900)
         if p.returncode != 0:
             raise Machinery("harness build failed (does /repo still compile?):\n" + p.stdout + p.stderr)
         self._bins[key] = out
         return out
 
-    def _write_gomod(self):
-        # the harness always builds against the current working tree of REPO
-        gm = os.path.join(HARNESS, "go.mod")
-        want = ("module verifharness\n\ngo 1.22.2\n\nrequire gitlab.com/gomidi/midi/v2 v2.0.0\n\n"
+    def _harness_copy(self):
+        # the harness is built in a scratch copy, always against the current working tree of REPO
+        # (VERIF_REPO selects another checkout, e.g. a scratch worktree with a candidate change applied)
+        hd = os.path.join(self.scratch, "harness")
+        if not os.path.exists(hd):
+            shutil.copytree(HARNESS, hd)
+            open(os.path.join(hd, "go.mod"), "w").write(
+                "module verifharness\n\ngo 1.22.2\n\nrequire gitlab.com/gomidi/midi/v2 v2.0.0\n\n"
                 "replace gitlab.com/gomidi/midi/v2 => %s/v2\n" % REPO)
-        try:
-            cur = open(gm).read()
-        except FileNotFoundError:
-            cur = ""
-        if cur != want:
-            open(gm, "w").write(want)
+        return hd
 
     def run(self, cmd, timeout=3600, stdin=None, env=None, cwd=None, ok_codes=(0,)):
         p = subprocess.run(cmd, input=stdin, capture_output=True, text=True, timeout=timeout, env=env, cwd=cwd)
